@@ -17,6 +17,11 @@ Definition expected (nm : string) : option (list expr) :=
   match fields nm with
   | ["swz"; form; l; w] => swizzle_read_spec F32 w
   | ["swzw"; form; l; w] => match digit_of l with Some L => swizzle_write_spec F32 L w | None => None end
+  | ["swzs"; form; l; w] => match digit_of l with Some L => swizzle_scalar_spec F32 L w | None => None end
+  | ["swzcadd"; form; l; w] => match digit_of l with Some L => swizzle_compound_spec Add F32 L w | None => None end
+  | ["swzcsub"; form; l; w] => match digit_of l with Some L => swizzle_compound_spec Sub F32 L w | None => None end
+  | ["swzcmul"; form; l; w] => match digit_of l with Some L => swizzle_compound_spec Mul F32 L w | None => None end
+  | ["swzcdiv"; form; l; w] => match digit_of l with Some L => swizzle_compound_spec Div F32 L w | None => None end
   | ["ctor"; dst; l; shape; kinds] => match digit_of l with Some L => ctor_spec (kind_of_name dst) L shape kinds | None => None end
   | ["mctor"; "scalars"; c; r; ty] => match digit_of c, digit_of r with Some C, Some R => Some (vars F32 0 (C * R)) | _, _ => None end
   | ["mctor"; "iscalars"; c; r; ty] => match digit_of c, digit_of r with Some C, Some R => Some (map (Cv F32 I32) (vars I32 0 (C * R))) | _, _ => None end
@@ -56,5 +61,5 @@ Definition required_matrix : list string :=
 Lemma matrix_catalogue_complete : forallb has required_matrix = true /\ List.length required_matrix = 126%nat.
 Proof. vm_compute. split; reflexivity. Qed.
 Definition count_prefix (p : string) : Z := Z.of_nat (List.length (filter (fun e => String.prefix p (fst e)) cat)).
-Lemma catalogue_sizes : (3300 <=? count_prefix "swz_") && (100 <=? count_prefix "ctor_") && (160 <=? count_prefix "swzw_") = true.
+Lemma catalogue_sizes : (3300 <=? count_prefix "swz_") && (100 <=? count_prefix "ctor_") && (160 <=? count_prefix "swzw_") && (50 <=? count_prefix "swzs_") && (200 <=? count_prefix "swzc") = true.
 Proof. vm_compute. reflexivity. Qed.
